@@ -719,6 +719,13 @@ func (c *SpecCtx) evalCall(x *ECall) *V {
 			v.F[k] = c.coerceTo(c.eval(x.Args[k+1]), st.Field(k).Type())
 		}
 		return v
+	case "zerotime":
+		// the zero value of time.Time
+		tt := c.u.eng.resolveType("time.Time", c.pkg)
+		if tt == nil {
+			c.fail("zerotime: package time is not loaded")
+		}
+		return &V{Typ: tt, T: intLit(0)}
 	case "toplevel":
 		// a separately allocated object (not a struct embedded in another object, not nil)
 		a := c.eval(x.Args[0])
